@@ -47,7 +47,7 @@ ASSUMPTIONS = [
     "ordering among concurrently running enters/exits and the wrapper type of a surfaced error are unspecified",
     "body 'cancelled' = cancellation requested by the harness and delivered at the body's next suspension point",
 ]
-MINIMUMS = {"monitor:exit-once": 3000, "monitor:cleanup-surfaces": 1000, "monitor:enter-error-surfaces": 200, "cases_with_exit_error": 1000, "cases_with_enter_error": 300, "body_cancelled": 200}
+MINIMUMS = {"monitor:exit-once": 3000, "monitor:cleanup-surfaces": 1000, "monitor:enter-error-surfaces": 200, "cases_with_exit_error": 1000, "cases_with_enter_error": 300, "body_cancelled": 200, "cancelled_while_entering_with_some_entered": 50}
 JOBS = {"quick": 4, "thorough": 16}
 LEVEL_TEXT = (
     "The full product enter{ok,gate,raise,gate-raise} x exit{ok,gate,raise,gate-raise} per disposable x body{return,raise,cancelled} is enumerated for up to 2 (quick) / 3 (thorough) "
@@ -86,7 +86,7 @@ def make_block(case: dict[str, Any]) -> dict[str, Any]:
     for i, (en, ex, y) in enumerate(case["disposables"]):
         ys = {"none": [], "one": [[("D1", "R1", "BoxInt", "R2")[i % 4], next(uid)]], "list": [["R3", next(uid)], [("D2", "BoxStr")[i % 2], next(uid)]], "empty-list": [],
               "generator": [["R3", next(uid)], [("D2", "BoxStr")[i % 2], next(uid)]], "iter": [[("D1", "R1", "BoxInt", "R2")[i % 4], next(uid)]], "map": [["R3", next(uid)]], "tuple": [["R3", next(uid)], ["D2", next(uid)]]}[y]
-        ds.append({"yield": ys, "enter": en, "exit": ex, "form": y if y in ("list", "empty-list", "generator", "iter", "map", "tuple") else "auto"})
+        ds.append({"yield": ys, "enter": en, "exit": ex, "form": y if y in ("list", "empty-list", "generator", "iter", "map", "tuple") else "auto", "falsy": (i + len(case["disposables"])) % 2 == 0})
     return {"op": "block", "kind": "ascope", "name": "blk", "supply": [["SubD1", next(uid)]], "disposables": ds, "body": [{"op": "probe", "id": 1}], "exit": {"kind": case["body"]}, "catch": True}
 
 
@@ -100,6 +100,16 @@ def run_once(case: dict[str, Any], chooser: Chooser) -> tuple[World, str, Any, S
         root.addHandler(W.capture)
         try:
             t = loop.create_task(run_steps(W, [block], None))
+            if case.get("cancel_enter"):
+                async def canceller() -> None:
+                    # an external cancellation of the task that owns the scope; the scheduler decides when (also while the
+                    # disposables are being entered)
+                    await W.sched.gate("cancel-victim")
+                    out["cancel_phase"] = W.block_phase.get("blk")
+                    out["entered_at_cancel"] = [d.idx for d in W.disposables.get("blk", []) if d.enter_done]
+                    out["cancel_accepted"] = t.cancel()
+
+                ct = loop.create_task(canceller())
             try:
                 await t
                 out["task"] = "returned"
@@ -109,10 +119,15 @@ def run_once(case: dict[str, Any], chooser: Chooser) -> tuple[World, str, Any, S
                 out["task"] = ("raised", exc)
         finally:
             root.removeHandler(W.capture)
+        if case.get("cancel_enter"):
+            await asyncio.gather(ct, return_exceptions=True)
+            for _ in range(5):
+                await asyncio.sleep(0)
 
     def hook(loop: Any) -> Any:
         sched = Sched(loop, chooser)
         loop.W = World(loop, sched)
+        loop.W.out = out
         loop.W.tg_enabled = False
         loop.W.probe_defaults = False
         return sched.idle
@@ -136,6 +151,24 @@ def judge(R: Recorder, case: dict[str, Any], chooser: Chooser, W: World, status:
     R.monitor("terminates", True)
     ds = W.disposables.get("blk", [])
     ev = W.events
+    if case.get("cancel_enter"):
+        out = W.out
+        if out.get("cancel_phase") != "entering" or not out.get("cancel_accepted"):
+            R.count("cancel_landed_outside_enter")
+            return  # cancellations of the body / of the exit belong to C06/C07
+        R.count("cancelled_while_entering")
+        if out.get("entered_at_cancel"):
+            R.count("cancelled_while_entering_with_some_entered")
+        body_ran = ("body-start", "blk") in ev
+        R.monitor("body-gated-by-enter", not body_ran, where={**w0, "kind": "body-ran-after-cancelled-enter"}, detail=f"the task was cancelled while its scope was entering its disposables, yet the body ran; events={ev}", case=rec)
+        for d in ds:
+            if d.enter_done:
+                R.monitor("exit-once", d.exit_calls == 1, where={**w0, "kind": "entered-not-exited" if d.exit_calls == 0 else "exited-twice", "enter_cancelled": True},
+                          detail=f"disposable {d.idx} had been entered (entered at the time of the cancel request: {out.get('entered_at_cancel')}) when the task was cancelled during scope entry; exit calls {d.exit_calls}; events={ev}", case=rec)
+            else:
+                R.monitor("exit-once", None)
+        R.monitor("cancel-during-enter-propagates", isinstance(W.caught.get("blk"), asyncio.CancelledError), where={**w0, "kind": "cancellation-lost"}, detail=f"the scope statement raised {W.caught.get('blk')!r} to the cancelled task", case=rec)
+        return
     body_started = ("body-start", "blk") in ev
     idx = {e: i for i, e in enumerate(ev)}
     i_body_start = ev.index(("body-start", "blk")) if body_started else None
@@ -249,6 +282,11 @@ def cases(tier: str, rng: random.Random):  # noqa: ANN201
     for y in ys:
         for body in BODIES:
             yield {"disposables": [["ok", "ok", y]], "body": body}
+    # the owning task is cancelled from outside at a scheduler-chosen moment, also while disposables are being entered
+    for n in range(1, maxn + 2):
+        for combo in itertools.product(itertools.product(("ok", "gate"), ("ok", "gate")), repeat=n):
+            if any(en == "gate" for en, _ in combo):
+                yield {"disposables": [[en, ex, ys[(i + len(en)) % 8]] for i, (en, ex) in enumerate(combo)], "body": "return", "cancel_enter": True}
     for _ in range(SAMPLE[tier]):
         n = rng.choice([3, 3, 4]) if tier == "quick" else 4
         yield {"disposables": [[rng.choice(ENTERS), rng.choice(EXITS), rng.choice(ys)] for _ in range(n)], "body": rng.choice(BODIES)}
